@@ -87,7 +87,12 @@ impl TcpStream {
 
             let syn = Protocol::Tcp(Segment::Syn(Syn { ack }));
             if !is_same(pair.local, pair.remote) {
-                world.send_message(pair.local, pair.remote, syn)?;
+                if let Err(e) = world.send_message(pair.local, pair.remote, syn) {
+                    // The attempt failed before anything was sent: release
+                    // the stream entry (and with it the ephemeral port).
+                    world.current_host_mut().tcp.reset_stream(pair);
+                    return Err(e);
+                }
             } else {
                 send_loopback(pair.local, pair.remote, syn);
             };
@@ -95,9 +100,16 @@ impl TcpStream {
             Ok::<_, Error>((pair, rx, bidi))
         })?;
 
+        // Until the handshake completes this attempt owns the stream entry it
+        // registered. If the connection is refused, or this future is dropped
+        // (e.g. by a timeout), the entry and its ephemeral port are released.
+        let mut pending = PendingConnect(Some(pair));
+
         syn_ack.await.map_err(|_| {
             io::Error::new(io::ErrorKind::ConnectionRefused, pair.remote.to_string())
         })?;
+
+        pending.0 = None;
 
         tracing::trace!(target: TRACING_TARGET, src = ?pair.remote, dst = ?pair.local, protocol = %"TCP SYN-ACK", "Recv");
 
@@ -191,6 +203,17 @@ impl TcpStream {
     /// available.
     pub fn poll_peek(&mut self, cx: &mut Context<'_>, buf: &mut ReadBuf) -> Poll<Result<usize>> {
         self.read_half.poll_peek(cx, buf)
+    }
+}
+
+/// Removes the stream entry of a connect attempt that did not complete.
+struct PendingConnect(Option<SocketPair>);
+
+impl Drop for PendingConnect {
+    fn drop(&mut self) {
+        if let Some(pair) = self.0.take() {
+            World::current_if_set(|world| world.current_host_mut().tcp.reset_stream(pair));
+        }
     }
 }
 
